@@ -23,7 +23,7 @@ PROPERTY = "C17"
 
 TIERS = {
     "quick": {"runs": 1500, "wall_cap_s": 70, "det_seeds": 16},
-    "thorough": {"runs": 14000, "wall_cap_s": 780, "det_seeds": 128, "det_extra_workers": 4},
+    "thorough": {"runs": 60000, "wall_cap_s": 780, "det_seeds": 128, "det_extra_workers": 4},
 }
 
 RULE = (
@@ -154,30 +154,39 @@ def _clock_decisions(rng, n, bias_progress):
     return out
 
 
-STRAT_N = [4, 5, 6, 7]
-STRAT_EPOCHS = [1, 2, -1]
-STRAT_MAXITER = [-1, 1, 2, 5]
+STRAT = {
+    # tier: (n values, #batch-size selectors, epochs, max_iter, planned stop step of callback 0)
+    "quick": ([4, 5, 6, 7], 6, [1, 2, -1], [-1, 1, 2, 5], [None]),
+    "thorough": ([4, 5, 6, 7, 8, 9], 8, [1, 2, 3, -1], [-1, 1, 2, 3, 5, 7], [None, 1, 2, 3, 5]),
+}
 
 
-def _strat_geometry(j):
-    """Mixed-radix walk over the small geometries."""
-    n = STRAT_N[j % 4]
-    j //= 4
-    bsel = j % 6
-    j //= 6
-    ep = STRAT_EPOCHS[j % 3]
-    j //= 3
-    mi = STRAT_MAXITER[j % 4]
-    bs = [-1, 1, 2, 3, n, n + 3][bsel]
-    return n, bs, ep, mi
+def _n_strat(tier):
+    ns, nb, eps, mis, stops = STRAT[tier]
+    return len(ns) * nb * len(eps) * len(mis) * len(stops)
 
 
-N_STRAT = 4 * 6 * 3 * 4
+def _strat_geometry(j, tier):
+    """Mixed-radix walk over the small geometries (complete for the listed value sets)."""
+    ns, nb, eps, mis, stops = STRAT[tier]
+    n = ns[j % len(ns)]
+    j //= len(ns)
+    bsel = j % nb
+    j //= nb
+    ep = eps[j % len(eps)]
+    j //= len(eps)
+    mi = mis[j % len(mis)]
+    j //= len(mis)
+    stop = stops[j % len(stops)]
+    bs = [-1, 1, 2, 3, n, n + 3, n - 1, 4][bsel]
+    return n, bs, ep, mi, stop
 
 
 def gen_plan(seed, index, tier):
     rng = random.Random(seed)
     plan = {"v": 1}
+    N_STRAT = _n_strat(tier)
+    strat_stop = None
     if index < N_STRAT:
         mode = "schedule"
     else:
@@ -185,7 +194,7 @@ def gen_plan(seed, index, tier):
     plan["mode"] = mode
     if mode == "schedule":
         if index < N_STRAT:
-            n, bs, ep, mi = _strat_geometry(index)
+            n, bs, ep, mi, strat_stop = _strat_geometry(index, tier)
             if ep == -1 and mi == -1:
                 mi = 3
         else:
@@ -207,10 +216,15 @@ def gen_plan(seed, index, tier):
                 cb_returns[rng.randrange(ncb)][str(rng.randint(1, 12))] = True
             if rng.random() < 0.15:
                 cb_returns[rng.randrange(ncb)][str(rng.randint(1, 12))] = True
+        if strat_stop is not None:
+            # stratified stop point: exactly one callback that stops at the planned step
+            cb_returns = [{str(strat_stop): True}]
         pu = rng.choice([None, None, 0.5, 10])
         ykind = rng.choice(["bin_int", "bin_str", "mc_int", "mc_str", "cont", "bin_neg"])
         akind = rng.choice(["bin_int", "bin_str", "mc_int", "cont"])
         prior = 0 if index < N_STRAT else rng.choice([0, 0, 0, 1, 1, 2])
+        if strat_stop is not None:
+            ncb = 1
         plan.update(n=n, batch_size=bs, epochs=ep, max_iter=mi, cb_returns=cb_returns, progress_updates=pu,
                     prior_fits=prior, warm_start=(rng.random() < 0.5),
                     ykind=ykind, akind=akind, cb_as_callable=(ncb == 1 and rng.random() < 0.5),
@@ -640,6 +654,9 @@ def _exec_equiv(plan, ctx):
     if okA and okB and not np.array_equal(np.asarray(predA), np.asarray(predB)):
         ctx.fail("C17.equiv.predict", "predict differs between the fit history and the equivalent partial_fit history "
                  f"although the raw outputs agree (classes passed to partial_fit in {plan.get('classes_order', 'sorted')} order)")
+    for tok in ("bn", "dropout"):
+        if tok in plan.get("pm", []):
+            ctx.probe(f"layer_{tok}")
     ctx.event("equiv_done", steps=len(slices), maxd=maxd, raw=ra)
     bs = n if plan["batch_size"] == -1 else plan["batch_size"]
     ctx.state({"mode": "equiv", "batches": min(ceil(n / bs), 6), "epochs": plan["epochs"], "reason": reason,
